@@ -54,6 +54,13 @@ def snapshot(root, with_dirs=False):
     return out
 
 
+def copy_tree(src, dst):
+    """Exact copy of a tree (modes, mtimes, symbolic links, FIFOs, empty directories): `cp -a`."""
+    r = subprocess.run(["cp", "-a", "--", src, dst], capture_output=True, text=True)
+    if r.returncode != 0:
+        raise OSError("cp -a %s %s: %s" % (src, dst, r.stderr[-300:]))
+
+
 def content_map(snap, staging=False):
     """relpath -> content id, regular files only; staging names dropped unless asked."""
     return {p: r["id"] for p, r in snap.items() if r.get("kind") == "f" and (staging or not p.endswith(STAGING))}
